@@ -475,7 +475,8 @@ func toSQLFaults(t *rapid.T, r *core.SplitMix) {
 func readSQLFaults(t *rapid.T, r *core.SplitMix) {
 	fs, qf := drawSQLFrame(t)
 	cfg := drawDriver(t)
-	input := map[string]interface{}{"frame": fs, "driver": cfg}
+	withArgs := rapid.Bool().Draw(t, "queryargs")
+	input := map[string]interface{}{"frame": fs, "driver": cfg, "query_args": withArgs}
 	// the stored table: what ToSQL writes for this frame
 	seed := simdb.New(cfg)
 	{
@@ -508,7 +509,11 @@ func readSQLFaults(t *rapid.T, r *core.SplitMix) {
 		}
 		func() {
 			defer func() { pan = recover() }()
-			fr = obs.Of(qframe.ReadSQL(tx, qsql.Query("SELECT * FROM t")))
+			if withArgs {
+				fr = obs.Of(qframe.ReadSQLWithArgs(tx, []interface{}{int64(7), "x"}, qsql.Query("SELECT * FROM t WHERE 7 = ? AND 'y' <> ?")))
+			} else {
+				fr = obs.Of(qframe.ReadSQL(tx, qsql.Query("SELECT * FROM t")))
+			}
 		}()
 		return sim, fr, pan
 	}
